@@ -30,6 +30,7 @@ RULES = {
     "C02-D2": "exactly one call-back invocation per dispatched unit; dispatch at most once per unit, only on the found edge",
     "C02-D3": "previous-header token: empty per message; assigned from the composed header on every path from the composition to the next unit",
     "C02-D4": "not-found edge: exactly one -113 with the unit text, result FALSE, no handler",
+    "C02-D8": "the -113 text starts at the header token (as lexed or as composed), never at the unit start: the bytes between unit start and header are overwritten by the path composition",
     "C02-D5": "handler-visible identity (param_list.cmd, cmd_raw.data/length) stored from the matched entry / composed header before the call-back",
     "C02-D7": "the path is prepended with an overlap-safe copy: source (previous header) and destination (in front of the current header) lie in the same buffer, destination above source",
     "C02-D6": "composeCompoundCommand: deciding characters {'*', ':'} / {'*'} / ':'; pointer, length and copy use the same amount",
@@ -368,7 +369,7 @@ def rule_d3_d4(ck, prog, S):
         r_f = pg.reachable(true_dst, blocked_edge=lambda e: e.kind == "elem" and e.node in det)
         in_loop = any(parse.where[p.id][0].id in body and parse.where[fch[0].id][0].id not in body for h, body in C.loops(parse))
         ta = K.arg_through(prog, p, real, host, 2)
-        text_ok = real.get("callee") == "SCPI_ErrorPushEx" and ta is not None and ta.strip_all_casts().get("path") == "data"
+        text_ok = real.get("callee") == "SCPI_ErrorPushEx" and ta is not None
         if pg.before(det[0]) in r_nf or pg.exit in r_nf:
             ck.violated("C02-D4", st, K.loc(parse, p), "an undefined header can pass without queuing -113")
         elif pg.before(p) in r_f:
@@ -379,6 +380,54 @@ def rule_d3_d4(ck, prog, S):
             ck.violated("C02-D4", st, K.loc(parse, p), "-113 does not carry the text of the offending unit (`%s`)" % real.src)
         else:
             ck.holds("C02-D4", st, K.loc(parse, p), "exactly one -113 with the unit text on the not-found edge")
+    # D8: where the -113 text starts.  The path composition copies the previous path IN FRONT of the current header,
+    # i.e. over the bytes between the unit start and the header (the white space the unit detection skipped, and further
+    # back).  A text that starts at the unit start therefore shows a torn piece of the copied path whenever white space
+    # precedes a relative header; a text that starts at the header token (as lexed: saved before the composition, or as
+    # composed: read after it) does not.
+    if len(sites) == 1 and fch:
+        p, real, host = sites[0]
+        st = K.site(parse, "undefined-header-text", 0)
+        ta = K.arg_through(prog, p, real, host, 2)
+        unit_start = C.call_args(det[0])[1].strip_all_casts().get("path")
+        tokptr = cur + ".ptr"
+
+        def origin(e, depth=0):
+            e = e.strip_all_casts()
+            while e.k == "ParenExpr":
+                e = e.child(0).strip_all_casts()
+            pth = e.get("path")
+            if pth == tokptr or pth == tokptr.replace("->", ".", 0):
+                return {"header"}
+            if pth == unit_start:
+                return {"unit-start"}
+            if e.k == "DeclRefExpr" and e["decl"]["kind"] == "local" and depth < 3:
+                out = set()
+                defs = [n for n, t in C.stores(parse) if t.get("path") == pth and n.get("op") == "="]
+                for d in parse.nodes.values():
+                    if d.k == "DeclStmt":
+                        for dd in d.get("decls", []):
+                            if dd["name"] == pth and "init" in dd:
+                                out |= origin(parse.nodes[dd["init"]], depth + 1)
+                for n in defs:
+                    out |= origin(n.child(1), depth + 1)
+                return out or {"?"}
+            return {"?"}
+        if ta is None or real.get("callee") != "SCPI_ErrorPushEx":
+            ck.violated("C02-D8", st, K.loc(parse, p), "-113 is queued without the offending text (`%s`)" % real.src)
+        else:
+            og = origin(ta)
+            if og == {"header"}:
+                ck.holds("C02-D8", st, K.loc(parse, p), "-113 text starts at the header token `%s` (`%s`)" % (tokptr, ta.src))
+            elif "unit-start" in og:
+                ck.violated("C02-D8", st, K.loc(parse, p),
+                            "the -113 text starts at the unit start `%s`; the unit detection skips white space in front of the header "
+                            "and composeCompoundCommand copies the previous path over exactly those bytes, so a relative undefined "
+                            "header after white space is reported with a torn piece of the path in front of it" % unit_start,
+                            {"witness": "table {TEST:A}; input \"TEST:A;  NOPE\\r\\n\" queues -113 with text \"T:NOPE\"; "
+                                        "\"TEST:A;      NOPE 1,2\\r\\n\" gives \" TEST:NOPE 1,2\""})
+            else:
+                ck.undecided("C02-D8", st, K.loc(parse, p), "cannot tell where the -113 text `%s` starts" % ta.src)
     ck.analysed(parse)
 
 
